@@ -175,6 +175,10 @@ type vRun struct {
 	emittedV  map[string]any
 	deploys   int
 	executing int
+	cancelAt  int // cancel the caller's context when the event counter reaches this value (0 = never)
+	cancel    func()
+	cancelT   int64
+	cancelled bool
 }
 
 type vHandover struct {
@@ -233,6 +237,7 @@ func verifAtomicState(s *vStep) step.RunningStepState { return s.state }
 
 func verifAtomicProvide(s *vStep, stage string, input map[string]any) (ch chan map[string]any, err error) {
 	s.run.seq++
+	verifAtomicTick(s.run)
 	s.run.handovers = append(s.run.handovers, vHandover{seq: s.run.seq, step: s.id, stage: stage, input: input})
 	switch stage {
 	case "deploy", "enabling", "starting":
@@ -290,8 +295,17 @@ func verifAtomicSet(s *vStep, stage string, st step.RunningStepState, waitingOn 
 	s.waitingOn = waitingOn
 }
 
+func verifAtomicTick(r *vRun) {
+	if r.cancelAt > 0 && r.seq == r.cancelAt && r.cancel != nil && !r.cancelled {
+		r.cancelled = true
+		r.cancelT = verifrt.Now()
+		r.cancel()
+	}
+}
+
 func verifAtomicEmit(s *vStep, stage, out string, data any) {
 	s.run.seq++
+	verifAtomicTick(s.run)
 	s.run.emitted[s.id+"."+stage+"."+out] = s.run.seq
 	s.run.emittedV[s.id+"."+stage+"."+out] = data
 }
